@@ -131,6 +131,7 @@ def case_strategy():
                 "closure": draw(st.booleans()), "defaults": draw(st.booleans()),
                 # the method's own scope rebinds a builtin name the generated lookup might rely on
                 "shadow": draw(st.sampled_from([None, None, None, "type", "isinstance", "tuple"])),
+                "mlstr": draw(st.sampled_from([None, None, None, "", "\\n    indented"])),
                 # how the body spells the recursion: the special `recurse`, the function's own name (a global, or a
                 # closure cell when the functions are built in a factory), or both
                 "recname": draw(st.sampled_from(["recurse", "recurse", "self", "both"])) if host == "func" else "recurse"}
@@ -225,6 +226,9 @@ def render(spec, real):
     body = [f"{ind}acc = []", f"{ind}v = 1"]
     if spec.get("shadow"):
         body.append(f"{ind}{spec['shadow']} = 5")
+    if spec.get("mlstr"):
+        # a multi-line string literal whose continuation lines sit left of the (indented) def
+        body += [f'{ind}acc.append("""m1', "  m2", f'm3{spec["mlstr"]}""")']
     for kind, e in spec["stmts"]:
         e2 = subst(number(e, nxt)).replace("{CN}", names["CN"])
         body += render_stmt(kind, e2, ind)
